@@ -23,7 +23,9 @@ RULE = ("seeded generator: value sets over all string classes (C0, DEL, U+2028/9
         "combinations whose output contained at least one row")
 
 STYLES = ("one-line", "consise", "pretty")
-SEPS = ["\n", "\r\n", " ", "\n\n", "\t", "---\n", ";\n", "\n \n", "\r"]
+SEPS = ["\n", "\r\n", " ", "\n\n", "\t", "---\n", ";\n", "\n \n", "\r",
+        # separators that contain a backslash are taken literally (no unescaping of \n, \t, \\)
+        "\\n", ";\\;", "\\t ", "C:\\rows\\ "]
 _STR = re.compile(rb'"(?:[^"\\]|\\.)*"')
 
 
